@@ -15,7 +15,7 @@ from .. import bus, core, cover, gen, ref
 LEVEL = 'exploration'
 JOBS = {'quick': 2, 'thorough': 16}
 REQUIRED_MONITORS = ('chi2_reference', 'chi2_rigid_motion', 'chi2_relabel')
-REQUIRED_CLASSES = ('recovery:wrong-sized-call-then-used-again', 'restraint-array:refilled-by-the-caller-afterwards', 'calculator:pickle', 'place:coincident', 'place:far-from-origin', 'place:far-from-origin-aligned', 'mobile-array:same-object-overwritten', 'mobile-array:strided-or-fortran', 'restr:none', 'restr:partial', 'restr:all-fixed', 'restr:dup-fixed', 'restr:dup-mobile',
+REQUIRED_CLASSES = ('fixed-array:dtype-float32', 'fixed-array:dtype-int64', 'fixed-array:dtype-int32', 'recovery:wrong-sized-call-then-used-again', 'restraint-array:refilled-by-the-caller-afterwards', 'calculator:pickle', 'place:coincident', 'place:far-from-origin', 'place:far-from-origin-aligned', 'mobile-array:same-object-overwritten', 'mobile-array:strided-or-fortran', 'restr:none', 'restr:partial', 'restr:all-fixed', 'restr:dup-fixed', 'restr:dup-mobile',
                     'penalty:k>0', 'penalty:k=0', 'embedded:mc')
 RULE = ('calculators over (fixed size 1..40, mobile size 1..25, restraint class, placement class); each is '
         'evaluated on 4 configurations different from the construction one. Non-trivial: at least two mobile '
@@ -216,6 +216,13 @@ def run_calc(ctx, case):
         pcls = PLACE[int(rng.integers(0, len(PLACE)))]
         restr = gen_restraints(rng, rcls, nf, nm)
         fixed, mobile0 = place(rng, pcls, nf, nm)
+        if it % 7 == 4:
+            # the fixed coordinate set arrives in another number type (single precision as trajectory readers give it,
+            # integers as a lattice builder gives it); the mobile set stays double, so the definition is evaluated in
+            # double precision on exactly these values (the reference converts the fixed values losslessly)
+            fdt = [np.float32, np.int64, np.int32][(it // 7 + case['batch']) % 3]
+            fixed = (fixed if fdt is np.float32 else np.round(fixed)).astype(fdt)
+            ctx.hit('fixed-array:dtype-' + np.dtype(fdt).name)
         form = int(rng.integers(0, 3))
         arg = restr
         if restr:
